@@ -14,6 +14,12 @@ import (
 
 type plan struct {
 	Calls []world.APICall   `json:"calls"`
+	ServerMode string       `json:"server_mode"`
+	Storm      *struct {
+		Workers   int             `json:"workers"`
+		Generates int             `json:"generates"`
+		Msgs      []world.FuzzMsg `json:"msgs"`
+	} `json:"storm"`
 	Fuzz  []world.FuzzMsg   `json:"fuzz"`
 }
 
@@ -39,7 +45,7 @@ func main() {
 	log := world.NewLog(w)
 	ctx := context.Background()
 	world.Quiet()
-	srv, err := world.StartAPIServer(ctx, world.NewLog(nil))
+	srv, err := world.StartAPIServerMode(ctx, world.NewLog(nil), p.ServerMode)
 	if err != nil {
 		fmt.Fprintln(os.Stderr, "server:", err)
 		os.Exit(2)
@@ -60,6 +66,12 @@ func main() {
 		if err := srv.RunFuzz(ctx, p.Fuzz, log); err != nil {
 			fmt.Fprintln(os.Stderr, "fuzz:", err)
 			os.Exit(2)
+		}
+	}
+	if p.Storm != nil {
+		if err := srv.RunStorm(ctx, p.Storm.Msgs, p.Storm.Workers, p.Storm.Generates, log); err != nil {
+			fmt.Fprintln(os.Stderr, "storm:", err)
+			os.Exit(3)
 		}
 	}
 	log.Emit(world.Ev{"ev": "End", "sc": "api"})
